@@ -418,6 +418,9 @@ pub fn run(rep: &mut Report) {
                 // cut inside a token
                 let toks = tokens(&nodes);
                 let ks: Vec<usize> = (0..toks.len()).filter(|&k| toks[k].bytes.len() >= 2).collect();
+                if ks.is_empty() {
+                    continue; // a document without any multi-byte token has no inside to cut
+                }
                 let k = ks[g.rng.below(ks.len() as u64) as usize];
                 let kind = if toks[k].ev == Ev::Text { "cut.inside_text" } else { "cut.inside_markup" };
                 (kind.to_string(), cut_inside(&mut g, &toks, k))
